@@ -41,7 +41,7 @@ def main():
             "guard": "PARGLARE_VERIF",
             "enable": "PARGLARE_VERIF=1 (and PARGLARE_VERIF_MAX_STATES=<n>) in the environment of the impl process; "
                       "no build step, the package is imported from /repo (PYTHONPATH=/repo)",
-            "baseline_off_cmd": "env -u PARGLARE_VERIF -u PARGLARE_VERIF_MAX_STATES " + BASE,
+            "baseline_off_cmd": BASE.replace("cd /repo && ", "cd /repo && env -u PARGLARE_VERIF -u PARGLARE_VERIF_MAX_STATES "),
             "source_commits": ["1024b290d2f70b05b8beabc80f541f2bb5ddb6be"],
             "add_only": True,
         },
